@@ -222,6 +222,9 @@ func stackScenarios(which string) []scenario {
 		scripts: [][]sop{opens(add(11), op("read")), opens(cmp(0, 1), add(21), op("read"))}})
 	out = append(out, scenario{name: "low:compact|compact-high", setup: append(base3, add(103)),
 		scripts: [][]sop{opens(cmp(0, 1), op("read")), opens(cmp(2, 3), op("read"))}})
+	// overlapping compactions: one holds the table locks of a middle range while the other walks up from the bottom
+	out = append(out, scenario{name: "overlap:compact-mid|compactall", setup: append(base3, add(103)),
+		scripts: [][]sop{opens(cmp(1, 2), op("read")), opens(op("compactall"), op("read"))}})
 	// a reader that is behind by a lower compaction reloads while the tables on top are compacted away
 	out = append(out, scenario{name: "behind:reload-vs-high-compact", setup: base3,
 		scripts: [][]sop{opens(add(11), op("read"), add(12), op("read")), opens(cmp(0, 1), add(21), add(22)), opens(cmp(2, 3), op("read"))},
